@@ -196,7 +196,9 @@ pub fn get_number_or_time(config: &SmartCalcConfig, field_name: &str, fields: &B
         Some(number) => {
             let date = Utc::now().naive_local().date();
             let time = chrono::NaiveTime::from_hms_opt(number as u32, 0, 0)?;
-            Some((NaiveDateTime::new(date, time), config.get_time_offset()))
+            let time_offset = config.get_time_offset();
+            /* Like a written time, a bare hour is a wall clock of the configured zone and is kept in UTC */
+            Some((NaiveDateTime::new(date, time).checked_sub_signed(Duration::minutes(time_offset.offset as i64))?, time_offset))
         },
         None => get_time(field_name, fields)
     }
